@@ -13,8 +13,11 @@ Stable interface (other properties rely on it):
 Covered problem features: index locations + one explicit matrix; deliveries / pickups / services / multi jobs
 (pickup+delivery shipments, 2 pickups + delivery, 2 deliveries, delivery + service); 1-2 places, 1-2 time windows, tags;
 1-3 vehicle types x 1-2 ids x 1-2 shifts, open / closed ends, start latest; single-dimension capacity; integer costs;
-skills (allOf); limits (maxDistance, maxDuration, tourSize).  NOT generated: breaks, reloads, recharges, relations,
-clustering, replacements, value/group/compatibility/order, multiple profiles, scaled profiles, objectives override.
+skills (allOf); limits (maxDistance, maxDuration, tourSize).  Additive FEATURES (gen_problem(features=...), each drawn from a
+forked stream so the base problem is the one the old generator produced): 'compat' (job compatibility classes mixed with plain
+jobs), 'group' (job groups), 'unreach' (matrix errorCodes, mostly asymmetric), 'mdim' (2-3 capacity dimensions, demands of the
+same length), 'skills2' (skills oneOf / noneOf).  NOT generated: breaks, reloads, recharges, relations, clustering,
+replacements, value/order, multiple profiles, scaled profiles, objectives override.
 """
 import calendar
 import time as _time
@@ -111,7 +114,12 @@ def _task(rng, n, horizon, demand, jid, k, force_tags=False, avoid=()):
     return t, loc
 
 
-def gen_problem(rng, njobs=None, metric=None, nlocs=None, tight=None, multi=True, skills=True, limits=True):
+FEATURES = ('compat', 'group', 'unreach', 'mdim', 'skills2')
+
+
+def gen_problem(rng, njobs=None, metric=None, nlocs=None, tight=None, multi=True, skills=True, limits=True, features=None):
+    """features: None = every feature of FEATURES independently with probability ~1/3 (combined freely);
+    () = none (the generator as it was before the features existed); or an explicit collection of names to force"""
     n = nlocs or rng.range(3, 8)
     if metric is None:
         metric = rng.chance(3, 5)
@@ -226,8 +234,84 @@ def gen_problem(rng, njobs=None, metric=None, nlocs=None, tight=None, multi=True
     dist = [dist[i * n + j] for i in used for j in used]
     n = len(used)
     matrix = {'profile': 'car', 'travelTimes': dur, 'distances': dist}
+    # ---- additive features: all draws come from a FORKED stream (the parent stream is not consumed)
+    frng = rng.fork('features')
+    if features is None:
+        feats = [f for f in FEATURES if frng.chance(1, 3)]
+    else:
+        feats = [f for f in FEATURES if f in features]
+    add_features(frng, problem, matrix, feats, tight)
     return {'problem': problem, 'matrices': [matrix],
-            'meta': {'n': n, 'metric': bool(metric), 'tight': bool(tight), 'njobs': njobs}}
+            'meta': {'n': n, 'metric': bool(metric), 'tight': bool(tight), 'njobs': njobs, 'features': feats}}
+
+
+def add_features(frng, problem, matrix, feats, tight=False):
+    jobs = problem['plan']['jobs']
+    vehicles = problem['fleet']['vehicles']
+    n = matrix_size(matrix)
+    if 'compat' in feats:
+        classes = ['food', 'junk', 'glass'][:frng.choice([2, 2, 3])]
+        for j in jobs:
+            if frng.chance(1, 2):                       # the others stay plain jobs (they mix with every class)
+                j['compatibility'] = frng.choice(classes)
+        if not any('compatibility' in j for j in jobs):
+            jobs[0]['compatibility'] = classes[0]
+    if 'group' in feats:
+        groups = ['g1', 'g2'][:frng.choice([1, 2, 2])]
+        for j in jobs:
+            if frng.chance(2, 5):
+                j['group'] = frng.choice(groups)
+        if not any('group' in j for j in jobs):
+            jobs[-1]['group'] = groups[0]
+    if 'skills2' in feats:
+        pool = ['s1', 's2', 's3']
+        for v in vehicles:
+            if 'skills' not in v and frng.chance(1, 2):
+                v['skills'] = frng.shuffle(pool)[:frng.range(1, 2)]
+            elif 'skills' in v and frng.chance(1, 3):
+                v['skills'] = sorted(set(v['skills'] + ['s3']))
+        for j in jobs:
+            if frng.chance(1, 3):
+                sk = dict(j.get('skills') or {})
+                k = frng.below(3)
+                if k in (0, 2):
+                    sk['oneOf'] = frng.shuffle(pool)[:frng.range(1, 2)]
+                if k in (1, 2):
+                    sk['noneOf'] = frng.shuffle(pool)[:frng.range(1, 2)]
+                j['skills'] = sk
+    if 'mdim' in feats:
+        k = frng.choice([2, 2, 3])
+        for v in vehicles:
+            v['capacity'] = v['capacity'][:1] + [frng.range(2, 6) if tight or frng.chance(1, 3) else frng.range(4, 20) for _ in range(k - 1)]
+        for j in jobs:
+            pick, deli = j.get('pickups') or [], j.get('deliveries') or []
+            for t in pick + deli + (j.get('replacements') or []):
+                t['demand'] = t['demand'][:1] + [frng.choice([0, 1, 1, 2, 3]) for _ in range(k - 1)]
+            if pick and deli:
+                # validation E1102 (per dimension): sum of pickups = sum of deliveries; every such job has ONE delivery
+                tot = [sum(t['demand'][d] for t in pick) for d in range(k)]
+                for t in deli[1:]:
+                    t['demand'] = [0] * k
+                deli[0]['demand'] = [tot[d] - sum(t['demand'][d] for t in deli[1:]) for d in range(k)]
+    if 'unreach' in feats:
+        err = [0] * (n * n)
+        style = frng.below(4)
+        pairs = [(i, j) for i in range(n) for j in range(n) if i != j]
+        if style == 0 and n > 2:                       # one location that cannot be left / cannot be entered
+            x = frng.below(n)
+            for i, j in pairs:
+                if (i == x) if frng.chance(1, 2) else (j == x):
+                    err[i * n + j] = 1
+        else:
+            for i, j in pairs:
+                if frng.chance(1, 5):
+                    err[i * n + j] = frng.choice([1, 1, 2, 7])
+                    if style == 1:                      # symmetric
+                        err[j * n + i] = err[i * n + j]
+        if not any(err):
+            i, j = frng.choice(pairs)
+            err[i * n + j] = 1
+        matrix['errorCodes'] = err
 
 
 def location_refs(problem):
@@ -264,7 +348,14 @@ def gen_config(rng, tier='quick'):
             'outer_threads': rng.choice([1, 1, 2])}
 
 
+CONSTRUCT = 4     # pure-construction documents asked from the harness for problems with errorCodes (see c01.oracle_model)
+
+
 def solve_case(p, cfg):
+    if p['matrices'][0].get('errorCodes') and 'construct' not in cfg:
+        # reachability: the pure-construction documents tell an unreachable leg left behind by a removal (finding C01-F4)
+        # from one accepted by an insertion (c01.oracle_model)
+        cfg = dict(cfg, construct=CONSTRUCT)
     return {'op': 'solve', 'problem': p['problem'], 'matrices': p['matrices'], 'config': cfg}
 
 
@@ -291,11 +382,18 @@ class Ids:
                 for pl in t[1]['places']:
                     if pl.get('tag') is not None:
                         self.tags.setdefault(pl['tag'], len(self.tags) + 1)
-            for s in (j.get('skills') or {}).get('allOf') or []:
-                self.skills.setdefault(s, len(self.skills) + 1)
+            for key in ('allOf', 'oneOf', 'noneOf'):
+                for s in (j.get('skills') or {}).get(key) or []:
+                    self.skills.setdefault(s, len(self.skills) + 1)
         for t in pr['fleet']['vehicles']:
             for s in t.get('skills') or []:
                 self.skills.setdefault(s, len(self.skills) + 1)
+        self.groups, self.compats = {}, {}
+        for j in pr['plan']['jobs']:
+            if j.get('group') is not None:
+                self.groups.setdefault(j['group'], len(self.groups) + 1)
+            if j.get('compatibility') is not None:
+                self.compats.setdefault(j['compatibility'], len(self.compats) + 1)
         self.extra = {}
 
     def _get(self, table, key):
@@ -358,8 +456,14 @@ def g_job(ids, j):
     static = not (j.get('pickups') and j.get('deliveries'))
     tasks = lst(ts, lambda kt: '(mkPTask %s %s %s)' % (z(kt[0]), lst(kt[1]['places'], lambda pl: g_place(ids, pl)),
                                                       z((kt[1].get('demand') or [0])[0])))
-    sk = [ids.skill(s) for s in (j.get('skills') or {}).get('allOf') or []]
-    return '(mkPJob %s %s %s %s)' % (z(ids.job(j['id'])), tasks, 'true' if static else 'false', zlist(sk))
+    skills = j.get('skills') or {}
+    sk, one, none = ([ids.skill(s) for s in skills.get(key) or []] for key in ('allOf', 'oneOf', 'noneOf'))
+    group = None if j.get('group') is None else ids.groups[j['group']]
+    compat = None if j.get('compatibility') is None else ids.compats[j['compatibility']]
+    k = max([len(kt[1].get('demand') or [0]) for kt in ts] + [1])
+    xdem = [[(list(kt[1].get('demand') or []) + [0] * k)[d] for kt in ts] for d in range(1, k)]
+    return '(mkPJob %s %s %s %s %s %s %s %s %s)' % (z(ids.job(j['id'])), tasks, 'true' if static else 'false', zlist(sk),
+                                                 zlist(one), zlist(none), zopt(group), zopt(compat), lst(xdem, zlist))
 
 
 def g_shift(sh):
@@ -375,13 +479,13 @@ def g_vtype(ids, t):
     lim = t.get('limits') or {}
     c = t['costs']
     ts = lim.get('tourSize')
-    return '(mkPVType %s %s %s %s %s %s %s %s %s %s %s)' % (
+    return '(mkPVType %s %s %s %s %s %s %s %s %s %s %s %s)' % (
         z(ids.vtype(t['typeId'])), zlist([ids.vehicle(v) for v in t['vehicleIds']]), lst(t['shifts'], g_shift),
         z(t['capacity'][0]), z(int(c.get('fixed') or 0)), z(int(c['distance'])), z(int(c['time'])),
         zlist([ids.skill(s) for s in t.get('skills') or []]),
         zopt(None if lim.get('maxDistance') is None else int(lim['maxDistance'])),
         zopt(None if lim.get('maxDuration') is None else int(lim['maxDuration'])),
-        'None' if ts is None else '(Some %s)' % z(ts))
+        'None' if ts is None else '(Some %s)' % z(ts), zlist(list(t['capacity'][1:])))
 
 
 def matrix_size(m):
@@ -393,9 +497,10 @@ def g_problem(p, ids=None):
     ids = ids or Ids(p)
     pr = p['problem']
     m = p['matrices'][0]
-    return '(mkPProblem %s %s %s %s %s)' % (lst(pr['plan']['jobs'], lambda j: g_job(ids, j)),
-                                           lst(pr['fleet']['vehicles'], lambda t: g_vtype(ids, t)),
-                                           z(matrix_size(m)), zlist(m['travelTimes']), zlist(m['distances']))
+    return '(mkPProblem %s %s %s %s %s %s)' % (lst(pr['plan']['jobs'], lambda j: g_job(ids, j)),
+                                              lst(pr['fleet']['vehicles'], lambda t: g_vtype(ids, t)),
+                                              z(matrix_size(m)), zlist(m['travelTimes']), zlist(m['distances']),
+                                              zlist(m.get('errorCodes') or []))
 
 
 def _interval(iv):
@@ -424,22 +529,34 @@ def g_stop(ids, s):
                                            lst(s['activities'], lambda a: g_act(ids, a)))
 
 
-def g_tour(ids, t):
-    return '(mkSTour %s %s %s %s %s)' % (z(ids.vehicle(t['vehicleId'])), z(ids.vtype(t['typeId'])), nat(t.get('shiftIndex', 0)),
-                                        lst(t['stops'], lambda s: g_stop(ids, s)), g_stat(t['statistic']))
+def capacity_dims(p):
+    return max([len(v['capacity']) for v in p['problem']['fleet']['vehicles']] + [1])
+
+
+def g_tour(ids, t, dims=1):
+    # loads in the dimensions 1..dims-1 (a load vector shorter than the capacity is padded with zeros: MultiDimLoad::as_vec
+    # of a load that never met a demand is [0])
+    xload = [[(list(s.get('load') or []) + [0] * dims)[d] for s in t['stops']] for d in range(1, dims)]
+    return '(mkSTour %s %s %s %s %s %s)' % (z(ids.vehicle(t['vehicleId'])), z(ids.vtype(t['typeId'])), nat(t.get('shiftIndex', 0)),
+                                           lst(t['stops'], lambda s: g_stop(ids, s)), g_stat(t['statistic']), lst(xload, zlist))
 
 
 def g_solution(p, s, ids=None):
     ids = ids or Ids(p)
     un = s.get('unassigned') or []
+    dims = capacity_dims(p)
     return '(mkSSolution %s %s %s)' % (
-        g_stat(s['statistic']), lst(s['tours'], lambda t: g_tour(ids, t)),
+        g_stat(s['statistic']), lst(s['tours'], lambda t: g_tour(ids, t, dims)),
         lst(un, lambda u: '(%s, %s)' % (z(ids.job(u['jobId'])), nat(len(u.get('reasons') or [])))))
 
 
 def unsupported(p, s):
     """why the document cannot be rendered into the reduced Coq types (None = fine)"""
     try:
+        dims = capacity_dims(p)
+        if any(len(v['capacity']) != dims for v in p['problem']['fleet']['vehicles']) or \
+                any(len(t['demand']) != dims for j in p['problem']['plan']['jobs'] for _, t in tasks_of(j) if t.get('demand')):
+            return 'capacities / demands of different lengths'
         if not isinstance(s, dict) or 'tours' not in s or 'statistic' not in s:
             return 'not a solution document'
         sts = [s['statistic']] + [t['statistic'] for t in s['tours']]
@@ -452,8 +569,8 @@ def unsupported(p, s):
             for stop in t['stops']:
                 if 'location' not in stop or 'index' not in stop['location']:
                     return 'stop without index location (transit stop?)'
-                if len(stop.get('load', [])) > 1:
-                    return 'multi-dimensional load'
+                if len(stop.get('load', [])) > dims:
+                    return 'load with more dimensions than the capacity'
                 if stop.get('parking') is not None:
                     return 'parking reported without clustering'
                 secs(stop['time']['arrival']), secs(stop['time']['departure'])
@@ -615,6 +732,19 @@ def py_accounting(p, s):
         if any(a[1] not in jobkinds + ('departure', 'arrival') for a in flats[k]):
             v.append(('AExtraActivity', k))
     return sorted(v)
+
+
+def unreachable_legs(p, s):
+    """python twin of Valid.reach_viols: [(tour index, flattened activity index)] of the legs marked by errorCodes"""
+    err = p['matrices'][0].get('errorCodes')
+    if not err:
+        return []
+    n = matrix_size(p['matrices'][0])
+    out = []
+    for k, t in enumerate(s.get('tours') or []):
+        locs = [l for _, _, l in _flat_tour(t)]
+        out += [(k, i) for i in range(1, len(locs)) if err[locs[i - 1] * n + locs[i]] > 0]
+    return out
 
 
 def coq_viols(val, group=None):
